@@ -41,7 +41,9 @@ def bases():
                  "api.x.com", "help.t.co", "a.b.c.example.org"):
         for tail in ("", "/Some/Path", "/a/b.html?id=1&Q=Abc", "/watch?v=abcdefghijk", "/a?x=1#/Route/1", "/p?%4A=1&b=2", "/p?_rdr=1&id=2",
                      # letters whose lower-case form depends on their position (final sigma), accented letters
-                     "/\u039f\u0394\u039f\u03a3/\u00c9t\u00e9?q=\u0391\u03a3", "/\u03bf\u03b4\u03bf\u03c3"):
+                     "/\u039f\u0394\u039f\u03a3/\u00c9t\u00e9?q=\u0391\u03a3", "/\u03bf\u03b4\u03bf\u03c3",
+                     # an escaped NON-ASCII upper-case key: revealed by unquoting only, the items are sorted again after lower-casing
+                     "/p?%C3%89=1&%C3%A8=0&b=2", "/p?%C3%A8=0&%C3%89=1"):
             out.append((host, tail))
     # redirect carriers: the port of the carrier is ignored like any other (host-based and parameter-based hints)
     out.extend(CARRIERS)
@@ -180,6 +182,11 @@ def main():
     jobs = [(a.tier, a.seed, list(range(len(B)))[i::n]) for i in range(n)]
     for part in run_sharded(shard, jobs, a.jobs):
         col.merge(part)
+    # spelling of percent-escapes combined with letter case (an escaped upper-case letter is lower-cased like a raw one, and sorted where it then belongs)
+    for u, tu in (("http://example.com/p?\u00c9=1&\u00e8=0", "http://example.com/p?%C3%89=1&%C3%A8=0"), ("http://example.com/p?J=1&b=2", "http://example.com/p?%4A=1&b=2"),
+                  ("http://example.com/\u00c9/X?k=\u00c9", "http://example.com/%C3%89/%58?k=%c3%89"), ("http://example.com/p#\u00c9", "http://example.com/p#%C3%89")):
+        for kw in ({}, {"strip_suffix": True}):
+            check_equal(col, "escape-spelling+case", u, tu, kw)
     # fingerprint_url has a result for every string (what cannot be parsed comes back as given): strings that do not parse, or have no host
     for u in ODD:
         for kw in ({}, {"strip_suffix": True}, {"platform_aware": True}, {"unsplit": False}):
